@@ -437,6 +437,8 @@ class SymScalar:
     def _b(self, o, f):
         o = lift(o)
         a, b = self.term, o
+        if z3.is_bool(a) != z3.is_bool(b):
+            a, b = toint(a), toint(b)
         if z3.is_real(a) or z3.is_real(b):
             a, b = toreal(a), toreal(b)
         return f(a, b)
